@@ -21,7 +21,7 @@ FamCat == Prod2(CatArgs, CatArgs, LAMBDA x, y, i, j : Case("cat", <<Op("CAT")>>,
           \o Prod2(<<LB(<<>>), LB(<<1>>)>>, LongStrs, LAMBDA x, y, i, j : Case("catlong", <<Op("CAT")>>, <<x, y>>, 0))
 SpliceStrs == << LB(<<>>), LB(Hello), LBuf(Hello), LI(BI!Sub(P(63), I(1))), LBool(TRUE), LNull, LMap(<<>>, <<>>) >>
 SpliceIdx == IntLits(<< I(-1), I(0), I(1), I(4), I(5), I(6), I(2147483647), BI!Add(I(2147483647), I(1)) >>) \o <<LNull, LB(<<2>>)>>
-FamSubstr == Prod3(SpliceStrs, SpliceIdx, SpliceIdx, LAMBDA s, x, y, i, j, l : Case("substr", <<Op("SUBSTR")>>, <<s, x, y>>, 0))
+FamSubstr == TProd3(SpliceStrs, SpliceIdx, SpliceIdx, LAMBDA s, x, y, i, j, l : Case("substr", <<Op("SUBSTR")>>, <<s, x, y>>, 0), T(20))
 FamLeftRight == Prod3(<<"LEFT", "RIGHT">>, SpliceStrs, SpliceIdx, LAMBDA o, s, x, i, j, l : Case("leftright", <<Op(o)>>, <<s, x>>, 0))
 FamSpliceLong == Prod3(<<"LEFT", "RIGHT", "SUBSTR1">>, <<LongGen(131070), LongBufs[2]>>,
                        IntLits(<<I(0), I(1), I(65535), I(131069), I(131070), I(131071)>>),
@@ -30,9 +30,9 @@ FamSpliceLong == Prod3(<<"LEFT", "RIGHT", "SUBSTR1">>, <<LongGen(131070), LongBu
 \* MEMCPY: destination kept in a static field so that the result is visible; src "self" aliases the destination
 MemSrc == << <<PD(<<1, 2, 3, 4>>)>>, <<Op("LDSFLD0")>>, <<PI(67305985)>>, <<PD(<<1, 2, 3, 4>>), [op |-> "CONVERT", ty |-> TBuffer]>>, <<Op("PUSHNULL")>> >>
 MemIdx == << -1, 0, 1, 3, 4, 5, 7, 8, 9, 2147483647 >>
-FamMemCpy == Thinned(Prod4(MemIdx, MemSrc, MemIdx, MemIdx, LAMBDA di, src, si, n, h, i, j, l :
+FamMemCpy == TProd4(MemIdx, MemSrc, MemIdx, MemIdx, LAMBDA di, src, si, n, h, i, j, l :
                  Case("memcpy", <<[op |-> "INITSSLOT", n |-> 1], Op("STSFLD0"), Op("LDSFLD0"), PI(di)>> \o src \o <<PI(si), PI(n), Op("MEMCPY"), Op("LDSFLD0")>>,
-                      <<LBuf([k \in 1..8 |-> 10 * k])>>, Hash(h * 31 + i, j, l, 9))), IF Thin = 1 THEN 3 ELSE 25)
+                      <<LBuf([k \in 1..8 |-> 10 * k])>>, 0), T(2))
              \o << Case("memcpy", <<Op("MEMCPY")>>, <<LB(<<1, 2, 3>>), LK(0), LB(<<9>>), LK(0), LK(1)>>, 0),       \* destination must be a Buffer
                    Case("memcpy", <<Op("DUP"), PI(0), PD(<<9>>), PI(0), PI(1), Op("MEMCPY")>>, <<LongBufs[2]>>, 0) >>
 
@@ -40,17 +40,16 @@ FamMemCpy == Thinned(Prod4(MemIdx, MemSrc, MemIdx, MemIdx, LAMBDA di, src, si, n
 (* compound types *)
 Containers == << LArr(<<>>), LArr(<<LK(1), LK(2), LK(3)>>), LStruct(<<LK(1), LB(<<2>>), LNull>>), LArr(<<LStruct(<<LK(1)>>), LArr(<<LK(2)>>)>>),
                  LMap(<<>>, <<>>), LMap(<<LK(1), LB(<<107>>), LBool(TRUE), LK(0)>>, <<LK(10), LStruct(<<LK(5)>>), LNull, LB(<<1>>)>>),
-                 LBuf(<<5, 6, 7>>), LB(<<5, 6, 7>>), LB(<<>>), LK(259), LBool(TRUE), LNull >>
+                 BigMap, LBuf(<<5, 6, 7>>), LB(<<5, 6, 7>>), LB(<<>>), LK(259), LBool(TRUE), LNull >>
 Keys == IntLits(<< I(-1), I(0), I(1), I(2), I(3), I(4), I(131069), I(131070), I(2147483647), BI!Add(I(2147483647), I(1)), BI!Neg(P(255)) >>)
         \o << LBool(TRUE), LBool(FALSE), LB(<<>>), LB(<<1>>), LB(<<107>>), LB(<<1, 0>>), LB([i \in 1..64 |-> i]), LB([i \in 1..65 |-> i]),
               LNull, LBuf(<<1>>), LArr(<<>>) >>
-FamKeyed == Prod3(<<"PICKITEM", "HASKEY">>, Containers, Keys, LAMBDA o, c, k, i, j, l : Case("keyed", <<Op(o)>>, <<c, k>>, 0))
+FamKeyed == TProd3(<<"PICKITEM", "HASKEY">>, Containers, Keys, LAMBDA o, c, k, i, j, l : Case("keyed", <<Op(o)>>, <<c, k>>, 0), T(40))
 FamRemove == Prod2(Containers, Keys, LAMBDA c, k, i, j : Case("remove", Ops(<<"OVER", "SWAP", "REMOVE">>), <<c, k>>, 0))
 SetVals == << LK(7), LK(-128), LK(-129), LK(255), LK(256), LB(<<65>>), LB(Repeat(0, 33)), LBool(TRUE), LNull, LBuf(<<1>>), LArr(<<LK(1)>>),
               LStruct(<<LK(1), LStruct(<<LK(2)>>)>>), LMap(<<>>, <<>>) >>
-FamSetItem == Thinned(Prod3(Containers, Keys, SetVals, LAMBDA c, k, v, i, j, l :
-                  Case("setitem", <<Op("PUSH2"), Op("PICK"), Op("REVERSE3"), Op("SWAP"), Op("SETITEM")>>, <<c, k, v>>, Hash(i, j, l, 10))),
-                  IF Thin = 1 THEN 1 ELSE 4)
+FamSetItem == TProd3(Containers, Keys, SetVals, LAMBDA c, k, v, i, j, l :
+                  Case("setitem", <<Op("PUSH2"), Op("PICK"), Op("REVERSE3"), Op("SWAP"), Op("SETITEM")>>, <<c, k, v>>, 0), T(8))
 FamAppend == Prod2(Containers, SetVals, LAMBDA c, v, i, j : Case("append", Ops(<<"OVER", "SWAP", "APPEND">>), <<c, v>>, 0))
 FamMutate == Prod2(<<"REVERSEITEMS", "CLEARITEMS", "POPITEM", "KEYS", "VALUES", "UNPACK", "SIZE">>, Containers,
                    LAMBDA o, c, i, j : Case("mutate", <<Op("DUP"), Op(o)>>, <<c>>, 0))
@@ -105,7 +104,7 @@ CondOps == << "JMPIF", "JMPIFNOT", "JMPIFL", "JMPIFNOTL" >>
 FamJmpIf == Prod2(CondOps, Mixed, LAMBDA o, x, i, j : Case("jmpif", <<J(o, 2), Op("PUSH1"), Op("PUSH2")>>, <<x>>, 0))
 CmpJmps == << "JMPEQ", "JMPNE", "JMPGT", "JMPGE", "JMPLT", "JMPLE", "JMPEQL", "JMPNEL", "JMPGTL", "JMPGEL", "JMPLTL", "JMPLEL" >>
 CmpArgs == << LK(-1), LK(0), LK(1), LI(BI!Sub(P(255), I(1))), LI(BI!Neg(P(255))), LB(<<>>), LB(<<1, 0>>), LB(Repeat(0, 33)), LBool(TRUE), LNull, LBuf(<<1>>) >>
-FamJmpCmp == Prod3(CmpJmps, CmpArgs, CmpArgs, LAMBDA o, x, y, i, j, l : Case("jmpcmp", <<J(o, 2), Op("PUSH1"), Op("PUSH2")>>, <<x, y>>, 0))
+FamJmpCmp == TProd3(CmpJmps, CmpArgs, CmpArgs, LAMBDA o, x, y, i, j, l : Case("jmpcmp", <<J(o, 2), Op("PUSH1"), Op("PUSH2")>>, <<x, y>>, 0), T(10))
 FamFlow == <<
     Case("flow", <<J("JMP", 2), Op("PUSH1"), Op("PUSH2")>>, <<>>, 0),
     Case("flow", <<J("JMPL", 2), Op("PUSH1"), Op("PUSH2")>>, <<>>, 0),
@@ -126,16 +125,16 @@ FamFlow == <<
     Case("flow", <<J("PUSHA", 0), [op |-> "CONVERT", ty |-> TInteger]>>, <<>>, 0),
     Case("flow", <<J("PUSHA", 0), [op |-> "ISTYPE", ty |-> TPointer]>>, <<>>, 0),
     \* recursion with arguments: sum 1..n
-    Case("flow", <<Op("PUSH4"), J("CALL", 2), Op("RET"), [op |-> "INITSLOT", l |-> 0, a |-> 1], Op("LDARG0"), J("JMPIFNOT", 6),
+    Case("flow", <<Op("PUSH4"), J("CALL", 2), Op("RET"), [op |-> "INITSLOT", l |-> 0, a |-> 1], Op("LDARG0"), J("JMPIFNOT", 7),
                    Op("LDARG0"), Op("DEC"), J("CALL", -5), Op("LDARG0"), Op("ADD"), Op("RET"), Op("PUSH0"), Op("RET")>>, <<>>, 0),
     \* nested calls three deep, shared evaluation stack
     Case("flow", <<J("CALL", 3), Op("PUSH1"), Op("RET"), J("CALL", 3), Op("PUSH2"), Op("RET"), J("CALL", 3), Op("PUSH3"), Op("RET"), Op("DEPTH"), Op("RET")>>, <<LK(7)>>, 0),
     \* conditional jumps whose target is outside the script but which are not taken
-    Case("untaken", <<Op("PUSHF"), J("JMPIF", 100), Op("PUSH1")>>, <<>>, 0),
-    Case("untaken", <<Op("PUSHF"), J("JMPIF", -100), Op("PUSH1")>>, <<>>, 0),
-    Case("untaken", <<Op("PUSHT"), J("JMPIFNOTL", 100000), Op("PUSH1")>>, <<>>, 0),
-    Case("untaken", <<Op("PUSH1"), Op("PUSH2"), J("JMPEQ", -50), Op("PUSH3")>>, <<>>, 0),
-    Case("untaken", <<Op("PUSH1"), Op("PUSH2"), J("JMPGTL", 50), Op("PUSH3")>>, <<>>, 0),
+    Case("untaken-jump-out-of-range", <<Op("PUSHF"), J("JMPIF", 100), Op("PUSH1")>>, <<>>, 0),
+    Case("untaken-jump-out-of-range", <<Op("PUSHF"), J("JMPIF", -100), Op("PUSH1")>>, <<>>, 0),
+    Case("untaken-jump-out-of-range", <<Op("PUSHT"), J("JMPIFNOTL", 100000), Op("PUSH1")>>, <<>>, 0),
+    Case("untaken-jump-out-of-range", <<Op("PUSH1"), Op("PUSH2"), J("JMPEQ", -50), Op("PUSH3")>>, <<>>, 0),
+    Case("untaken-jump-out-of-range", <<Op("PUSH1"), Op("PUSH2"), J("JMPGTL", 50), Op("PUSH3")>>, <<>>, 0),
     Case("assert", <<Op("ABORT")>>, <<>>, 0) >>
     \o Prod2(<<LBool(TRUE), LBool(FALSE), LNull, LK(0), LK(2), LB(Repeat(0, 33)), LArr(<<>>)>>,
              <<LB(<<104, 105>>), LB(<<>>), LK(65), LNull, LBuf(<<104>>), LArr(<<>>), LBool(TRUE)>>,
@@ -204,9 +203,10 @@ SeqInits == << <<LK(3), LK(-7)>>, <<LI(BI!Neg(P(255))), LK(1)>>, <<LB(<<0, 1>>),
 NS == Len(SeqOps)
 Pw(n) == IF n = 1 THEN NS ELSE IF n = 2 THEN NS * NS ELSE NS * NS * NS
 SeqOf(k, n) == [p \in 1..n |-> SeqOps[(((k - 1) \div (IF p = n THEN 1 ELSE IF p = n - 1 THEN NS ELSE NS * NS)) % NS) + 1]]
-FamSeqN(n, thin) == Thinned([k \in 1..(Pw(n) * Len(SeqInits)) |->
-                              Case("seq", SeqOf(((k - 1) \div Len(SeqInits)) + 1, n), SeqInits[((k - 1) % Len(SeqInits)) + 1], Hash(k, n, 0, 11))], thin)
-FamSeq == FamSeqN(1, 1) \o FamSeqN(2, 1) \o FamSeqN(3, IF SeqLen >= 3 THEN 1 ELSE 30)
+FamSeqN(n, thin) == LET ks == Picked(Pw(n) * Len(SeqInits), thin) IN
+                    [p \in 1..Len(ks) |-> LET k == ks[p] IN
+                         Case("seq", SeqOf(((k - 1) \div Len(SeqInits)) + 1, n), SeqInits[((k - 1) % Len(SeqInits)) + 1], 0)]
+FamSeq == FamSeqN(1, 1) \o FamSeqN(2, T(20)) \o FamSeqN(3, IF SeqLen >= 3 THEN T(1) ELSE (3 * Thin) \div 2)
 
 AllCases == FamUn \o FamBin \o FamBinMixed \o FamBinStr \o FamShift \o FamPow \o FamTri \o FamModPow \o FamModPowBig \o FamTriMixed \o FamConv
             \o FamNewArrayT \o FamPushInt \o FamConst \o FamPushData \o FamStack0 \o FamStackN \o FamSlot
